@@ -2,7 +2,7 @@
    Statements only; proofs in proofs/Multicast_proofs.v. *)
 From Coq Require Import NArith List Bool.
 Import ListNotations.
-Require Import BV.model.Multicast BV.proofs.Multicast_proofs.
+Require Import BV.model.Status BV.model.Multicast BV.proofs.Multicast_proofs.
 Open Scope N_scope.
 
 (* -- vocabulary (definitions live in the proofs file so that lemmas can mention them) ---------
